@@ -288,7 +288,7 @@ def _fstring_text(quote: str, raw: bool) -> str:
 
 def _fstring_patterns(quote: str, raw: bool) -> str:
     text = _fstring_text(quote, raw)
-    return choice(LBrace=text + r"\{(?!\{)", End=text + quote, Stray=text + r"\}")
+    return choice(LBrace=text + r"\{(?!\{)", End=text + quote, Stray=text + r"\}(?!\})")
 
 
 def _fstring_spec_patterns(quote: str) -> str:
